@@ -518,6 +518,11 @@ func parsePromQLFunc(s Source, expr string, n *promParser.Call) Source {
 
 	case "absent", "absent_over_time":
 		s.Returns = promParser.ValueTypeVector
+		// absent() returns a series exactly when its operand returns nothing:
+		// a dead operand does not make the call dead, an always returning operand does not make it always return.
+		s.IsDead = false
+		s.IsDeadReason = ""
+		s.AlwaysReturns = false
 		s.FixedLabels = true
 		s.IncludedLabels = nil
 		s.GuaranteedLabels = nil
